@@ -24,6 +24,7 @@ RULE = (
     "circuits reloaded, derived circuits re-checked); 4 flags x 3 semirings; dict passing and torch.save / "
     "torch.load through a buffer; histories save -> reset -> load -> SGD step -> save -> load into a third "
     "instance; distinct = structure signature x flags; non-trivial = at least one learnable tensor"
+    " Also: fresh instance evaluated before the load, only operands loaded and derived circuits compiled afterwards with a second instance compiled in between, derived circuit reloaded from its own dictionary alone;"
 )
 EXHAUSTIVE_SUBSPACES = ["all 4 (fold, optimize) combinations per case"]
 ASSUMPTIONS = ["for derived circuits the shared tensors belong to the operands: 'exactly once' is asserted on the owning circuit, presence + round trip on the derived one"]
